@@ -52,7 +52,10 @@ VALUE_TABLE = {
                           {"datetime": "2020-01-02T03:04:05+02:00"},
                           {"datetime": "2020-01-02T03:04:05.5-01:00"}], "text": ["2020-01-02 03:04:05"],
                  "near": ["2020-01-02", "2020-01-02T03:04:05",
-                          {"datetime": "2020-01-02T03:04:05.123456"}, {"date": "2020-01-02"}]},
+                          {"datetime": "2020-01-02T03:04:05.123456"}, {"date": "2020-01-02"},
+                          # ISO 8601 texts with what a stored datetime must not carry
+                          "2020-01-02T03:04:05.250000", "2020-01-02T03:04:05+02:00",
+                          "2020-01-02 03:04:05.250000", "2020-01-02T03:04:05Z"]},
     "2-tuple": {"good": [{"list": ["1", "2"]}, {"list": [" 39.12", "67.19 "]}, {"tuple": ["a ", " b"]},
                          {"list": ["a", ""]}],
                 "text": ["(1;2)", "(a; b)", "( 3 ; 4 )", "(a;)", "(;b)"],
@@ -69,7 +72,7 @@ VALUE_TABLE = {
                  "text": ["(a;b;c;d;e;f;g;h;i;j;k;l)"],
                  "near": ["(1)", {"list": ["1", "2"]}, "(1;2)", "(0;1;2;3;4;5;6;7;8;9)"]},
 }
-SPECIAL_INPUTS = [None, "", {"list": []}, {"tuple": []}, "[a, b]", "[1, 2, 3]", "(1;2)", {"dict": {"a": 1}},
+SPECIAL_INPUTS = [None, "", " ", {"list": [""]}, {"list": ["", "  "]}, {"list": []}, {"tuple": []}, "[a, b]", "[1, 2, 3]", "(1;2)", {"dict": {"a": 1}},
                   {"list": [1, "a"]}, {"list": ["", "x"]}, {"tuple": [1, 2]}, "[(1;2),(3;4)]"]
 
 CARDS_GOOD = [None, 1, 2, 3, {"tuple": [None, 2]}, {"tuple": [1, None]}, {"tuple": [1, 3]},
@@ -648,6 +651,8 @@ class Gen(object):
         x = self._prop()
         if x is None:
             return None
+        if self.chance(0.08):
+            return {"op": "set_dtype", "x": self.ref(x), "v": None}      # "no dtype" is an assignment too
         return {"op": "set_dtype", "x": self.ref(x), "v": self.dtype_name()}
 
     def g_v_append(self):
